@@ -6,6 +6,7 @@ from props import qcommon as qc
 
 class Grammar(qc.SyncOps, qc.FullGrammar):
     allow_main = True
+    barrier_block_objects = True
     allow_retarget = True
     thread_kinds = [("async", 4), ("basync", 1), ("sync", 4), ("bsync", 2), ("aaw", 2), ("baaw", 1), ("gasync", 2), ("await", 4), ("work", 1),
                     ("genter", 2), ("gleave", 3), ("gwait", 3), ("enter_wait", 2), ("gnotify", 1), ("swait", 2), ("ssignal", 2), ("once", 2), ("retarget", 1)]
